@@ -3,7 +3,9 @@
 #include <GeographicLib/MGRS.hpp>
 #include <GeographicLib/UTMUPS.hpp>
 #include <GeographicLib/Math.hpp>
+#include "C04_doc.hpp"
 using namespace GeographicLib; using namespace gv;
+#define bad doc::bad_
 
 static std::string b(bool x) { return x ? "1" : "0"; }
 static const double SENT = 7.25e77;
